@@ -131,7 +131,8 @@ def rand_x(r):
 
 
 def l2(c, exprs):
-    outs = c.impl('units', [sx([Sym('eval'), U.CTX_DEFAULT, e]) for e in exprs])
+    lines = [sx([Sym('eval'), U.CTX_DEFAULT, e]) for e in exprs]
+    outs = U.impl_patient(c, lines)
     res = []
     for o in outs:
         p = try_parse(o)
@@ -310,6 +311,8 @@ def _check(c):
         if o != ('o', 'true') and allexact:
             c.violation('conversion-transitive', {'kind': 'impl-vs-spec', 'input': '(%s %s to %s to %s) == (%s %s to %s)' % (xlit(x), A.name, B.name, C.name, xlit(x), A.name, C.name), 'impl': o})
 
+    simplify_checks(c, t, units, classes)
+
     # ---- L1: the raw result of `x A to B` against the model's convert_to on the model's values
     samp = r.sample(cases, min(len(cases), 800 if c.tier == 'quick' else 5000))
     names = sorted({A.name for A, B, x in samp} | {B.name for A, B, x in samp})
@@ -341,6 +344,136 @@ def _check(c):
     if c.tier == 'thorough':
         c.exhaustive = True
         c.extra['exhaustive_scope'] = 'all ordered pairs of table names within each dimension class (one random magnitude each)'
+
+
+def simplify_checks(c, t, units, classes):
+    """Value::simplify, the step between a computed value and its printed form.
+    (a) L2 probe families: for every default unit of the tree (lookup_default_unit: newton, joule, ...,
+        liter, the base units) products and quotients of units of other dimension classes whose
+        dimensions combine to the default unit's: the PRINTED result (implicit replacement by the
+        default unit) must equal the explicit conversion and the exact spec; default units whose own
+        scale is not 1 (liter) get most of the budget;
+    (b) L1: the tree's simplify on a raw value (hook) against the extracted model's simplify applied
+        to the same raw value."""
+    r = c.rng
+    by_dims = {}
+    for cls, us in classes.items():
+        ok = [u for u in us if not u.affine and u.pat == 's' and u.exact and all(e.denominator == 1 for e in u.rdims.values())]
+        if ok:
+            by_dims[cls] = ok
+    defaults = []
+    for m, name in t['defaults']:
+        if name in units:
+            defaults.append((tuple(sorted((k, Fraction(e)) for k, e in m)), units[name]))
+    nonunit = [d for d in defaults if d[1].coef != 1]
+    c.extra['default_units'] = {u.name: str(u.coef) for _, u in defaults}
+    c.extra['default_units_with_scale_not_1'] = [u.name for _, u in nonunit]
+    def add(d1, d2, sg):
+        out = dict(d1)
+        for k, e in d2:
+            out[k] = out.get(k, 0) + sg * e
+        return tuple(sorted((k, e) for k, e in out.items() if e != 0))
+    cases = []          # (text, spec value in default units, default Unit)
+    def family(D, U_def, n):
+        keys = list(by_dims)
+        made = 0
+        tries = 0
+        while made < n and tries < 40 * n:
+            tries += 1
+            ca = r.choice(keys)
+            if ca == D or not ca:
+                continue
+            for sg in (1, -1):
+                # A * B = D  => dims(B) = D - dims(A);   A / B = D  => dims(B) = dims(A) - D
+                need = add(D, ca, -1) if sg == 1 else add(ca, D, -1)
+                if need in by_dims and need and need != D:
+                    A, B = r.choice(by_dims[ca]), r.choice(by_dims[need])
+                    x, y = rand_x(r), rand_x(r)
+                    if x == 0 or y == 0:
+                        x, y = Fraction(3), Fraction(2)
+                    txt = '(%s %s) %s (%s %s)' % (xlit(x), A.name, '*' if sg == 1 else '/', xlit(y), B.name)
+                    q = x * A.coef * A.adj * ((y * B.coef * B.adj) ** sg)
+                    cases.append((txt, q / U_def.coef, U_def))
+                    made += 1
+    budget = 900 if c.tier == 'quick' else 9000
+    for D, ud in nonunit:
+        family(D, ud, budget // (2 * max(1, len(nonunit))))
+    for D, ud in defaults:
+        family(D, ud, budget // (2 * max(1, len(defaults))))
+    fixed = [('1 hectare mm', Fraction(10000), 'liter'), ('1 acre foot', Fraction('1233481.83754752'), 'liter'), ('3 km * 2 hectares', Fraction(60000000000), 'liter'),
+             ('(2 acre inch) + (1 L)', Fraction('205581.30625792'), 'liter'), ('1 are * 1 dm', Fraction(10000), 'liter'), ('(1 J) / (1 Pa)', Fraction(1000), 'liter'),
+             ('(1 hectare mm) - (10000 L)', Fraction(0), 'liter'), ('1 lbf ft', Fraction('1.3558179483314004'), 'joule'), ('(1 V) / (1 ohm)', Fraction(1), 'ampere'),
+             ('(5 kg) * (2 m / s^2)', Fraction(10), 'newton')]
+    for txt, q, dn in fixed:
+        if dn in units:
+            cases.append((txt, q, units[dn]))
+    imp = l2(c, ['@noapprox (%s) to fraction' % txt for txt, q, ud in cases])
+    exp = l2(c, ['@noapprox ((%s) to %s) to fraction' % (txt, ud.name) for txt, q, ud in cases])
+    nbad = 0
+    for (txt, q, ud), a, b in zip(cases, imp, exp):
+        c.note_case('simplify:' + txt, True, 'simplify-default-' + ('scaled' if ud.coef != 1 else 'coherent'))
+        pa = parse_num(a[1]) if a[0] == 'o' else None
+        pb = parse_num(b[1]) if b[0] == 'o' else None
+        bad = None
+        if pb is None or pb[0] != q:
+            bad = ('explicit conversion differs from the spec', b)
+        elif pa is None:
+            bad = ('implicit (printed) result is not a number', a)
+        else:
+            first = pa[1].split(' ')[0] if pa[1] else ''
+            via_default = first in (ud.name, plural_of(t, ud.name))
+            if via_default:
+                if pa[0] != q:
+                    bad = ('printed result in the default unit differs from the explicit conversion and from the spec', a)
+            else:
+                c.dist['simplify-printed-in-another-unit'] = c.dist.get('simplify-printed-in-another-unit', 0) + 1
+        if bad and nbad < 20:
+            nbad += 1
+            c.violation('simplify-default-unit', {'kind': 'impl-vs-spec', 'input': txt, 'what': bad[0], 'printed': a, 'explicit': b,
+                                                  'explicit_query': '@noapprox ((%s) to %s) to fraction' % (txt, ud.name), 'want': '%s %s' % (q, ud.name)})
+    if cases:
+        c.sample({'op': 'L2 simplify', 'input': cases[0][0], 'printed': imp[0], 'explicit': exp[0], 'spec': str(cases[0][1])})
+    # ---- L1: simplify on raw values
+    pool = [u for us in by_dims.values() for u in us]
+    exprs = [txt for txt, q, ud in cases[: (500 if c.tier == 'quick' else 4000)]]
+    for _ in range(700 if c.tier == 'quick' else 6000):
+        k = r.randint(2, 4)
+        parts = []
+        for j in range(k):
+            u = r.choice(pool)
+            e = r.choice(['', '', '', '^2', '^-1', '^3', '^-2'])
+            parts.append(('%s %s%s' % (xlit(rand_x(r) or Fraction(1)), u.name, e)) if r.random() < 0.5 else ('%s%s' % (u.name, e)))
+        txt = parts[0]
+        for ptxt in parts[1:]:
+            txt = '(%s) %s (%s)' % (txt, r.choice(['*', '*', '/']), ptxt)
+        exprs.append(txt)
+    exprs += ['5 percent * 80 kg', '50%^2', '5 % * 3 %', '(80 kg) * 5%', '2 dozen m', '3 m * 2 cm', '1 m s / s', '1 degree * 2 radian', '3 celsius * 2 K',
+              '1 kWh / day', '(3 kg)^2 / kg', '1 km / 5 minutes', '3 million m', '2 km * 3 km * 4 km', '1 fahrenheit rankine', '6 %', '1 mile / gallon * liter']
+    raw = [U.i_lres(o) for o in c.impl('units', [sx([Sym('eval-expr'), U.CTX_DEFAULT, e]) for e in exprs])]
+    simp = [U.i_lres(o) for o in c.impl('units', [sx([Sym('eval-expr-simplified'), U.CTX_DEFAULT, e]) for e in exprs])]
+    idx = [i for i, rv in enumerate(raw) if rv[0] == 'ok']
+    mo = c.model('units', [sx([Sym('simplify'), U.e_value(raw[i][1])]) for i in idx])
+    ndiff = 0
+    for i, o in zip(idx, mo):
+        p = try_parse(o)
+        m = ('ok', U.m_value(p[1])) if isinstance(p, list) and p and p[0] == b'ok' else ('err', p[1] if isinstance(p, list) and len(p) > 1 else p)
+        if m[0] == 'err' and m[1] == 11:
+            c.dist['model-outside-fragment'] = c.dist.get('model-outside-fragment', 0) + 1
+            continue
+        c.note_case('simplify-raw:' + exprs[i], True, 'simplify-raw')
+        iv = simp[i]
+        same = (m[0] == 'ok' and iv[0] == 'ok' and U.value_same(m[1], iv[1])) or (m[0] != 'ok' and iv[0] not in ('ok',))
+        if not same and ndiff < 15:
+            ndiff += 1
+            c.violation('simplify-model-differs', {'kind': 'impl-vs-model', 'layer': 'L1 Value::simplify (hook eval_expr_simplified)', 'input': exprs[i],
+                                                   'impl': repr(iv)[:500], 'model': repr(m)[:500]}, no_input=True)
+
+
+def plural_of(t, name):
+    for g, s_, p, d in t['defs']:
+        if s_ == name:
+            return p or s_
+    return name
 
 
 def Unit_no_offset(u):
